@@ -390,6 +390,117 @@ theorem shell_refines_spec (fuel : Nat) (script : List Line) :
   rw [h]
   exact ⟨rfl, rfl, hr⟩
 
+/-! ### ☆ pipeline_status: the exit status of a multi-command pipeline
+
+Without `pipefail` it is the exit status of the last command; with `pipefail` that of the rightmost
+command that failed, zero if none did — whatever the commands are, under job control or not. -/
+
+/-- the status a pipeline reports, from the exit statuses of its commands in order (`final` starts at 0):
+    the register update of `execute_multi_command_pipeline` -/
+def pipeStatus (pipefail : Bool) : List Nat → Nat → Nat
+  | [], final => final
+  | e :: rest, final => pipeStatus pipefail rest (if e ≠ 0 ∨ !pipefail then e else final)
+
+/-- the exit statuses of the members, each run in its own subshell on a copy of the shell's state -/
+def memberStatuses : Nat → St → List Cmd → List Nat
+  | 0, _, _ => []
+  | _+1, _, [] => []
+  | fuel+1, s, c :: rest =>
+    let x := execCmd fuel (s.push .subshell) c
+    let c2 := x.1.applyResult x.2
+    c2.status :: memberStatuses fuel { s with trace := c2.trace, pending := c2.pending } rest
+
+/-- the members of a pipeline never make the pipeline divert: each runs in its own subshell -/
+theorem members_never_divert (fuel : Nat) : ∀ (s : St) (cs : List Cmd) (f : Nat) (dv : Divert),
+    (execPipeMembers fuel s cs f).2 ≠ .break_ dv := by
+  induction fuel with
+  | zero => intro s cs f dv; simp [execPipeMembers]
+  | succ fuel ih =>
+    intro s cs f dv
+    cases cs with
+    | nil => simp [execPipeMembers]
+    | cons c rest =>
+      simp only [execPipeMembers]
+      generalize execCmd fuel (s.push .subshell) c = x
+      obtain ⟨c1, r⟩ := x
+      cases r with
+      | outOfFuel => simp
+      | continue_ => exact ih _ rest _ dv
+      | break_ d => exact ih _ rest _ dv
+
+theorem members_status (fuel : Nat) : ∀ (s : St) (cs : List Cmd) (f : Nat),
+    (execPipeMembers fuel s cs f).2 = .continue_ →
+    (execPipeMembers fuel s cs f).1.status = pipeStatus s.pipefail (memberStatuses fuel s cs) f := by
+  induction fuel with
+  | zero => intro s cs f h; simp [execPipeMembers] at h
+  | succ fuel ih =>
+    intro s cs f h
+    cases cs with
+    | nil => simp [execPipeMembers, memberStatuses, pipeStatus]
+    | cons c rest =>
+      simp only [execPipeMembers, memberStatuses, pipeStatus] at h ⊢
+      generalize execCmd fuel (s.push .subshell) c = x at h ⊢
+      obtain ⟨c1, r⟩ := x
+      cases r with
+      | outOfFuel => simp at h
+      | continue_ => exact ih _ rest _ h
+      | break_ d => exact ih _ rest _ h
+
+/-- The status of the whole pipeline command (`c1 | c2 | …`, two or more commands), with or without the
+    job-control wrapper subshell. -/
+theorem pipeline_status (fuel : Nat) (s : St) (c d : Cmd) (t : List Cmd)
+    (h : (execCommands (fuel+1) s (c :: d :: t)).2 ≠ .outOfFuel) :
+    (execPipeMembers fuel s.enterJc (c :: d :: t) 0).2 = .continue_ ∧
+    (execCommands (fuel+1) s (c :: d :: t)).1.status =
+      pipeStatus s.pipefail (memberStatuses fuel s.enterJc (c :: d :: t)) 0 := by
+  simp only [execCommands] at h ⊢
+  have hm := members_status fuel s.enterJc (c :: d :: t) 0
+  have hpf : s.enterJc.pipefail = s.pipefail := by unfold St.enterJc; split <;> rfl
+  have hst : ∀ s1 : St, (s.leaveJc s1).status = s1.status := by intro s1; unfold St.leaveJc; split <;> rfl
+  have hnd := members_never_divert fuel s.enterJc (c :: d :: t) 0
+  generalize execPipeMembers fuel s.enterJc (c :: d :: t) 0 = x at h hm hnd ⊢
+  obtain ⟨s1, r⟩ := x
+  have hr : r = .continue_ := by
+    -- members never divert: each runs in its own subshell
+    cases r with
+    | continue_ => rfl
+    | outOfFuel => simp at h
+    | break_ dv => exact absurd rfl (hnd dv)
+  subst hr
+  simp only [hst] at hm ⊢
+  refine ⟨trivial, ?_⟩
+  rw [← hpf]
+  exact hm trivial
+
+/-- without `pipefail`: the last command's status -/
+theorem pipeStatus_last (sts : List Nat) (f : Nat) (h : sts ≠ []) : pipeStatus false sts f = sts.getLast h := by
+  induction sts generalizing f with
+  | nil => exact absurd rfl h
+  | cons e rest ih =>
+    cases rest with
+    | nil => simp [pipeStatus]
+    | cons e2 r2 =>
+      have := ih (if e ≠ 0 ∨ (!false) = true then e else f) (by simp)
+      simp only [pipeStatus] at this ⊢
+      simpa using this
+
+/-- with `pipefail`: the rightmost non-zero status, or what the register held (zero) if there is none -/
+theorem pipeStatus_pipefail (sts : List Nat) (f : Nat) :
+    pipeStatus true sts f = ((sts.reverse.find? (· ≠ 0)).getD f) := by
+  induction sts generalizing f with
+  | nil => simp [pipeStatus]
+  | cons e rest ih =>
+    simp only [pipeStatus, ih, List.reverse_cons, List.find?_append]
+    by_cases he : e = 0
+    · subst he; simp
+    · cases hf : List.find? (fun x => decide (x ≠ 0)) rest.reverse <;> simp [he]
+
+/-- not vacuous: `st 2 | st 0 | st 0` is 0 without pipefail and 2 with it -/
+example :
+    let p : List Cmd := [.st 2, .st 0, .st 0]
+    (execCommands 5 {} p).1.status = 0 ∧ (execCommands 5 { pipefail := true } p).1.status = 2 ∧
+    (execCommands 5 { pipefail := true } [.st 2, .st 3, .st 0]).1.status = 3 := by decide
+
 /-! ### ☆ fuel_irrelevant: the fuel index is only a termination device
 
 Every theorem of this file holds "for every fuel"; these theorems say what that quantifier means.  If
